@@ -1092,11 +1092,20 @@ def apply_text_edit(specs, edit):
 INJECT_CFG = dict(max_ns=3, max_types=5, max_fields=3, max_routes=2, type_depth=2)
 
 
+RULE_WEIGHT = {'bad_type_arguments': 6, 'bad_doc_reference': 4, 'bad_struct_example': 4, 'bad_default_value': 4,
+               'bad_annotation_use': 2, 'bad_custom_annotation': 2, 'bad_route_attrs': 2, 'undefined_symbol': 2,
+               'patch_kind_mismatch': 2, 'enumerated_subtypes': 2, 'duplicate_field': 2, 'bad_union_example': 2,
+               'default_on_nullable': 2, 'illegal_parent_kind': 2}
+
+
 @st.composite
 def injected(draw, rules=None):
     """-> {'rule', 'ctx', 'specs'}: a valid model with exactly one rule violation."""
     api = draw(gen.api_models(gen.Cfg(**INJECT_CFG)))
     names = sorted(rules or RULES)
+    if rules is None:
+        # rules with many variants are drawn proportionally more often, so that each variant is met
+        names = sorted(n for n in names for _ in range(RULE_WEIGHT.get(n, 1)))
     for _ in range(6):
         name = draw(st.sampled_from(names))
         inj = I(draw, api)
